@@ -900,7 +900,7 @@ def select__attribute_kind_test_or_axis(self: XPathToken, context: ta.ContextTyp
         for attribute in context.iter_attributes():
             yield attribute
     else:
-        name = self[0].value
+        name = self[0].name or self[0].value
         assert isinstance(name, str)
 
         if self.parser.schema is not None and len(self) == 2:
